@@ -223,6 +223,10 @@ func (a *BigInt) M__imul__(other Object) (Object, error) {
 func (a *BigInt) M__truediv__(other Object) (Object, error) {
 	b, err := MakeFloat(other)
 	if err != nil {
+		if IsException(TypeError, err) {
+			// not a real number - let it try the reflected operation
+			return NotImplemented, nil
+		}
 		return nil, err
 	}
 	fa, err := a.Float()
@@ -239,6 +243,10 @@ func (a *BigInt) M__truediv__(other Object) (Object, error) {
 func (a *BigInt) M__rtruediv__(other Object) (Object, error) {
 	b, err := MakeFloat(other)
 	if err != nil {
+		if IsException(TypeError, err) {
+			// not a real number - let it try the reflected operation
+			return NotImplemented, nil
+		}
 		return nil, err
 	}
 	fa, err := a.Float()
